@@ -270,6 +270,12 @@ impl Dictionary {
         }
         self.data.connector.map_connection_ids(&mapper);
         self.data.unk_handler.map_connection_ids(&mapper);
+        // The stored mapper translates the ids of a user lexicon loaded later, which are
+        // given in the original numbering: keep the composition of all mappings applied.
+        let mapper = match self.data.mapper.take() {
+            Some(prev) => prev.then(&mapper),
+            None => mapper,
+        };
         self.data.mapper = Some(mapper);
         Ok(self)
     }
